@@ -149,6 +149,49 @@ pub struct Scenario {
     /// Probability denominators of switching away at a point, for the writer and for readers.
     pub writer_den: u64,
     pub reader_den: u64,
+    /// The process environment the daemon and its clients run in (nothing the segment's content
+    /// depends on, and nothing the properties allow to matter).
+    pub env: Env,
+}
+
+/// Environment of one scenario: file-creation mask of the process, permission bits of a
+/// pre-existing segment file, and whether the configured path is a symbolic link to the file.
+#[derive(Debug, Clone, Copy, PartialEq)]
+pub struct Env {
+    pub umask: u32,
+    pub mode: Option<u32>,
+    pub symlink: bool,
+}
+
+impl Default for Env {
+    fn default() -> Env {
+        Env { umask: 0o022, mode: None, symlink: false }
+    }
+}
+
+impl Env {
+    pub fn random(rng: &mut Rng) -> Env {
+        if rng.chance(1, 2) {
+            return Env::default();
+        }
+        Env {
+            umask: *rng.pick(&[0o022, 0o002, 0o000, 0o077, 0o027, 0o007]),
+            mode: if rng.chance(1, 2) { Some(*rng.pick(&[0o644, 0o664, 0o666, 0o600, 0o660, 0o640])) } else { None },
+            symlink: rng.chance(1, 4),
+        }
+    }
+    pub fn to_json(&self) -> Value {
+        json!({"umask": self.umask, "mode": self.mode, "symlink": self.symlink})
+    }
+    pub fn from_json(v: &Value) -> Env {
+        if v.is_null() {
+            return Env::default();
+        }
+        Env { umask: v["umask"].as_u64().unwrap_or(0o022) as u32, mode: v["mode"].as_u64().map(|m| m as u32), symlink: v["symlink"].as_bool().unwrap_or(false) }
+    }
+    pub fn name(&self) -> String {
+        format!("umask{:03o}/{}{}", self.umask, self.mode.map(|m| format!("mode{:03o}", m)).unwrap_or_else(|| "mode-".into()), if self.symlink { "/symlink" } else { "" })
+    }
 }
 
 impl Scenario {
@@ -162,6 +205,7 @@ impl Scenario {
             "readers": self.readers.iter().map(|r| json!({"start_after_p": r.start_after_p, "calls": r.calls})).collect::<Vec<_>>(),
             "writer_den": self.writer_den,
             "reader_den": self.reader_den,
+            "env": self.env.to_json(),
         })
     }
 
@@ -175,6 +219,7 @@ impl Scenario {
             readers: v["readers"].as_array().unwrap().iter().map(|r| ReaderProg { start_after_p: r["start_after_p"].as_u64().unwrap(), calls: r["calls"].as_u64().unwrap() as u32 }).collect(),
             writer_den: v["writer_den"].as_u64().unwrap(),
             reader_den: v["reader_den"].as_u64().unwrap(),
+            env: Env::from_json(&v["env"]),
         }
     }
 }
@@ -433,7 +478,20 @@ pub fn run_scenario(sc: &Scenario, dir: &Path, record_sites: bool, keep_events: 
     let sub = dir.join("d");
     std::fs::create_dir_all(&sub).unwrap();
     let path = sub.join("shm");
-    sc.start.prepare(&path);
+    let _ = std::fs::remove_file(sub.join("shm.real"));
+    // The environment applies to everything the scenario's tasks do (one scenario at a time per
+    // process): files the writer creates get 0666 & !umask, as the daemon's would.
+    unsafe { libc::umask(sc.env.umask as libc::mode_t) };
+    let real = if sc.env.symlink && !matches!(sc.start, Start::NoDir) { sub.join("shm.real") } else { path.clone() };
+    sc.start.prepare(&real);
+    if real != path {
+        let _ = std::fs::remove_file(&path);
+        std::os::unix::fs::symlink(&real, &path).unwrap();
+    }
+    if let (Some(mode), true) = (sc.env.mode, real.exists()) {
+        use std::os::unix::fs::PermissionsExt;
+        std::fs::set_permissions(&real, std::fs::Permissions::from_mode(mode)).unwrap();
+    }
     let (s0, p0, _usable0) = sc.start.progress();
 
     let ntasks = 1 + sc.readers.len();
